@@ -55,7 +55,19 @@ fn krylov(t: &mut Toks, cx: &mut Ctx, c09: bool) -> String {
         cx.meta("iters", if *it == 0 { "0".to_string() } else if *it <= n { "<=n".into() } else if *it <= 3 * n + 10 { "<=3n+10".into() } else { ">3n+10".into() });
         if x.vec.iter().all(|z| z.is_finite()) {
             let itol2 = solver == "bicg" && itol == 2; let _ = itol2;
-            cx.check(rel <= tol * (1.0 + 1e-9) + drift, &format!("success reported but true relative residual {:e} exceeds tol {:e} (+drift {:e})", rel, tol, drift));
+            if !(rel <= tol * (1.0 + 1e-9) + drift) {
+                // the property allows a drift proportional to the LARGEST iterate of the run: re-run the (deterministic)
+                // solver with budgets 1..it to observe every intermediate iterate
+                let mut xmax = xm;
+                for kbud in 1..*it {
+                    let mut xk = x0.clone();
+                    let _ = guarded(|| match solver.as_str() { "cg" => s.solve_cg(&b, &mut xk, kbud, tol), "bicg" => s.solve_bicg(&b, &mut xk, kbud, tol, itol), "bicgstab" => s.solve_bicgstab(&b, &mut xk, kbud, tol), _ => s.solve_qmr(&b, &mut xk, kbud, tol) });
+                    xmax = xmax.max(xk.vec.iter().map(|z| if z.is_finite() { z.abs() } else { f64::INFINITY }).fold(0.0, f64::max));
+                }
+                let drift2 = 1e3 * f64::EPSILON * ((*it + 1) as f64) * (an * xmax + bn) * (n as f64).sqrt() / div;
+                cx.meta("largest_iterate_drift", 1);
+                cx.check(rel <= tol * (1.0 + 1e-9) + drift2, &format!("success reported but true relative residual {:e} exceeds tol {:e} (+drift {:e} for the largest iterate {:e})", rel, tol, drift2, xmax));
+            }
         }
     }
     // ---- C09 oracle: well-posed classes ----
